@@ -44,7 +44,7 @@ ASSUMPTIONS = [
     "faults are not injected into the removal of lock files (filelock's own release path suppresses them by design)",
     "sequential debug worker in one process; the async path shares the same structure (run_async) and is exercised for workflows",
 ]
-PROBES = ["fault_before_try", "fault_in_finally", "fault_in_body", "fault_in_write", "fault_in_hook", "fault_in_messenger", "cache_hit_no_hooks"]
+PROBES = ["fault_in_write", "fault_in_hook", "fault_in_messenger", "fault_other_io", "cache_hit_no_hooks"]
 SCENARIOS = ["fresh", "failing", "hit", "rerun", "wf", "fresh+audit", "failing+audit", "rerun+audit"]
 NHIST = {"quick": 120, "thorough": 3000}
 
@@ -442,4 +442,4 @@ def _history(case, ch, workdir, res, cwd0):
 
 
 def summarize(cases, results):
-    return {"exhaustive": True, "seam_calls_per_scenario": {s: sum(1 for c in cases if c.get("scen") == s) for s in SCENARIOS}}
+    return {"exhaustive": True, "exhaustive_scope": "every recorded seam call of every scenario (the fault-free histories are sampled)", "seam_calls_per_scenario": {s: sum(1 for c in cases if c.get("scen") == s) for s in SCENARIOS}}
